@@ -116,6 +116,8 @@ class C03(Property):
                         start=0, end=None, meta=dict(n_time=0, cyclic=False, n_pull=1))
         cyc = "sufficient" if rnd.random() < 0.3 else None
         spec = gen_coupling.gen_dag(rnd, cycle=cyc, shipped=0.0 if cyc else 0.25)
+        if rnd.random() < 0.2:
+            gen_coupling.with_user_adapters(spec, rnd, 0.4)
         tc = [c for c in spec["comps"] if c["type"] == "time"]
         c = rnd.choice(tc)
         k = rnd.randint(1, 6)
